@@ -116,7 +116,7 @@ static void run_once(const Json& plan,int fault_op,long fault_k,bool verbose,boo
   rr.tr.reset(verbose);
   Exec* ex=new Exec();
   ex->c.out=&rr.out; ex->c.tr=&rr.tr; ex->c.ctr=&ctr; ex->c.opi=-1; ex->c.fault_fired_in_run=false; ex->c.trace_ops=trace_ops;
-  ex->fault_op=fault_op; ex->fault_k=fault_k;
+  ex->fault_op=fault_op; ex->fault_k=fault_k; ex->plan_prop=plan["property"].as_str();
   AllocCfg cfg; const Json& a=plan["alloc"];
   cfg.reuse=(int)a["reuse"].as_int(REUSE_LIFO); cfg.residue=(int)a["residue"].as_int(RESIDUE_RANDOM); cfg.fill=(int)a["fill"].as_int(FILL_NANPAYLOAD);
   cfg.c_reuse=REUSE_NONE; cfg.seed=(uint64_t)a["seed"].as_int(1);
